@@ -11,6 +11,7 @@ def closure_now(model, roots):
     seen = set()
 
     def go(x):
+        x = model.canon(x)
         if x in seen:
             return
         seen.add(x)
